@@ -121,6 +121,7 @@ func TestVerifC14rtRestart(t *testing.T) {
 		"restart-after-partial-syncs", "restart-of-overwritten-file", "restarted-db-continues-with-partial-sync",
 		"key-changed-owner-between-full-syncs", "found-by-dev", "found-by-linked", "found-by-ded", "found-by-human", "not-found")
 	st.Finish(t)
+	vc14rtNeedZones(t)
 
 	dir := t.TempDir()
 	ctx := context.Background()
